@@ -185,6 +185,7 @@ fn run(ctx: &RunCtx) -> Report {
             for x in &all {
                 if sim.node_addr(*x).to_string() == dx {
                     if let Some(s) = sim.snapshot(*x) {
+                        println!("t={}s own id {} inc {} alive {}", t / SEC, hex8(&s.id), sim.incarnation(*x), sim.alive(*x));
                         for (tn, tb) in [("main", &s.routing_table), ("signed", &s.signed_peers_routing_table)] {
                             for (k, b) in &tb.buckets {
                                 for n in b {
@@ -289,8 +290,8 @@ fn run(ctx: &RunCtx) -> Report {
                     let limit = ((21 * 60 * SEC) as f64 * skew) as u64;
                     if t > since + limit {
                         let paddr = sim.node_addr(*p);
-                        for (tbl, name) in [(&main, "routing table"), (&signed, "signed-peers routing table")] {
-                            if tbl.get(&paddr) == Some(oid) {
+                        for (tbl, name) in [(&s.routing_table, "routing table"), (&s.signed_peers_routing_table, "signed-peers routing table")] {
+                            if tbl.buckets.iter().any(|(_, b)| b.iter().any(|n| n.address == paddr && n.id == *oid)) {
                                 report.violate(
                                     "healthy-table",
                                     "dead-peer-still-in-table",
@@ -305,7 +306,10 @@ fn run(ctx: &RunCtx) -> Report {
             // (c) restarted peers are re-learned under their new id
             for (p, _) in restarted_at.iter() {
                 if let Some(nid) = current_id.get(p) {
-                    if p != x && main.get(&sim.node_addr(*p)) == Some(nid) {
+                    let paddr = sim.node_addr(*p);
+                    // several ids may sit on one address (old and new): look at all of them
+                    let has = s.routing_table.buckets.iter().any(|(_, b)| b.iter().any(|n| n.address == paddr && n.id == *nid));
+                    if p != x && has {
                         relearned.insert(*p);
                     }
                 }
